@@ -33,7 +33,7 @@ func init() {
 
 func init() {
 	register(&PropDef{
-		ID: "C17", Quick: 20000, Thorough: 5000000,
+		ID: "C17", Quick: 20000, Thorough: 2200000,
 		Profiles: []ProfileDef{
 			{Name: "store", Share: 10, Sc: scStore},
 			{Name: "race-store", Share: 1, Sc: scStoreRace, Race: true},
